@@ -89,6 +89,7 @@ def coq_term(case, out):
     else:
         fn = "export_parquet_tensor_eval"
     t = "%s %s %s %s %s" % (fn, C.natlit(a), C.natlit(b), C.natlit(c), flat)
+    t = "(header_eval %s %s) ++ (%s)" % ("true" if case["fmt"] == "parquet_tensor" else "false", C.natlit(c), t)
     if case["ty"] == "f32" and case["fmt"] not in ("csv", "csv_tensor"):
         t = "(%s) ++ (widen_eval %s)" % (t, flat)     # widened values, in storage order
     return t
@@ -131,7 +132,7 @@ def impl_flat(case, out):
     else:
         exp = [canon(case, x, False) for x in bits]
     lookup = {}
-    flat = []
+    flat = [header_code(h) for h in out["header"]]
     # we cannot invert canonical values to raw bits in general; instead emit, for each file cell, the raw stored
     # bits of the cell the model says should be there IF the file's canonical value matches it, else the file value
     order = expected_order(case)
@@ -148,6 +149,14 @@ def impl_flat(case, out):
     if binary and case["ty"] == "f32":
         flat += [widen_py(x) if canon(case, widen_py(x), True) != NAN else nan64(x) for x in bits]
     return flat
+
+
+def header_code(h):
+    if h in ("chain", "observation"):
+        return 0 if h == "chain" else 1
+    if h.startswith("dim_") and h[4:].isdigit():
+        return 2 + int(h[4:])
+    return -1
 
 
 def nan64(b32):
